@@ -137,7 +137,8 @@ def matches_known(prop, v, entry):
     the entry requires is among the violation's features (the entry names the failing
     input class; anything else -- other codemod, other kind, other shape -- is new)."""
     m = entry.get("match", {})
-    if m.get("component") != v["component"] or m.get("kind") != v["kind"]:
+    comps = m.get("components") or [m.get("component")]
+    if v["component"] not in comps or m.get("kind") != v["kind"]:
         return False
     need = set(m.get("features", []))
     if not need <= set(v.get("features") or []):
